@@ -86,7 +86,9 @@ func checkC03(c *Ctx, w *World) {
 		}
 	}
 	isMinCnt := func(v ssa.Value) bool { return msCall != nil && isExtractOf(stripConv(v), msCall, 1) }
-	sizeCall := func(v ssa.Value) bool { return callTo(".getConnectionPoolSize")(v) || lenOfField("gcpBalancer.scRefs")(v) }
+	sizeCall := func(v ssa.Value) bool {
+		return callTo(".getConnectionPoolSize")(v) || lenOfField("gcpBalancer.scRefs")(v)
+	}
 	lAtoms := []atomDef{
 		ltAtom("belowWatermark", isMinCnt, convOf(callTo(".GetMaxConcurrentStreamsLowWatermark"))),
 		eqAtom("unlimited", callTo(".GetMaxSize"), constIs(0)),
@@ -154,7 +156,10 @@ func checkC03(c *Ctx, w *World) {
 			if rng == nil || !isLoadOf(rng.X, "gcpBalancer.scStates") || !l.Header.Dominates(call.Block()) || l.Blocks[call.Block()] {
 				continue
 			}
-			isV := func(v ssa.Value) bool { e, ok := stripConv(v).(*ssa.Extract); return ok && e.Tuple == nx && e.Index == 2 }
+			isV := func(v ssa.Value) bool {
+				e, ok := stripConv(v).(*ssa.Extract)
+				return ok && e.Tuple == nx && e.Index == 2
+			}
 			cs := newCondSpace(nsl, recOf(eqAtom("elIdle", isV, constIs(pl.Idle)), eqAtom("elConnecting", isV, constIs(pl.Connecting))), "elIdle", "elConnecting")
 			cs.ExclusiveAtoms("elIdle", "elConnecting")
 			// inside the loop body: elIdle ∨ elConnecting ⇒ a return is reached (before the back edge)
